@@ -30,24 +30,43 @@ func (gaugeScenario) Config(r *rand.Rand, small bool) string {
 	for i := range acts {
 		acts[i] = "sffpFP"[r.Intn(6)]
 	}
-	return fmt.Sprintf("k=%d mc=%d fbmc=%d acts=%s", k, lims[r.Intn(5)], lims[r.Intn(5)], acts)
+	pr := 0
+	if r.Intn(5) == 0 {
+		pr = 1 // a collector that PANICS when it is told about a rejection (run side and fallback side)
+	}
+	return fmt.Sprintf("k=%d mc=%d fbmc=%d acts=%s pr=%d", k, lims[r.Intn(5)], lims[r.Intn(5)], acts, pr)
 }
 
-type countRec struct{ runRejects, fbRejects, runEvents, fbEvents int }
+type countRec struct {
+	runRejects, fbRejects, runEvents, fbEvents int
+	panicOnReject                              bool
+}
 
 func (c *countRec) Success(context.Context, time.Time, time.Duration)       { c.runEvents++ }
 func (c *countRec) ErrFailure(context.Context, time.Time, time.Duration)    { c.runEvents++ }
 func (c *countRec) ErrTimeout(context.Context, time.Time, time.Duration)    { c.runEvents++ }
 func (c *countRec) ErrBadRequest(context.Context, time.Time, time.Duration) { c.runEvents++ }
 func (c *countRec) ErrInterrupt(context.Context, time.Time, time.Duration)  { c.runEvents++ }
-func (c *countRec) ErrConcurrencyLimitReject(context.Context, time.Time)    { c.runEvents++; c.runRejects++ }
+func (c *countRec) ErrConcurrencyLimitReject(context.Context, time.Time) {
+	c.runEvents++
+	c.runRejects++
+	if c.panicOnReject {
+		panic("collector panic on rejection")
+	}
+}
 func (c *countRec) ErrShortCircuit(context.Context, time.Time)              { c.runEvents++ }
 
 type fbCountRec struct{ c *countRec }
 
 func (f fbCountRec) Success(context.Context, time.Time, time.Duration)    { f.c.fbEvents++ }
 func (f fbCountRec) ErrFailure(context.Context, time.Time, time.Duration) { f.c.fbEvents++ }
-func (f fbCountRec) ErrConcurrencyLimitReject(context.Context, time.Time) { f.c.fbEvents++; f.c.fbRejects++ }
+func (f fbCountRec) ErrConcurrencyLimitReject(context.Context, time.Time) {
+	f.c.fbEvents++
+	f.c.fbRejects++
+	if f.c.panicOnReject {
+		panic("collector panic on rejection")
+	}
+}
 
 func cfgInt(cfg, key string) int {
 	for _, f := range strings.Fields(cfg) {
@@ -72,7 +91,7 @@ var errBoom = errors.New("boom")
 
 func (gaugeScenario) Build(cfg string) ([]func(), func(*vsched.Sched) []string) {
 	k, mc, fbmc, acts := cfgInt(cfg, "k"), cfgInt(cfg, "mc"), cfgInt(cfg, "fbmc"), cfgStr(cfg, "acts")
-	rec := &countRec{}
+	rec := &countRec{panicOnReject: cfgInt(cfg, "pr") == 1}
 	now := time.Unix(4_000_000_000, 0)
 	c := circuit.NewCircuitFromConfig("g", circuit.Config{
 		General: circuit.GeneralConfig{TimeKeeper: circuit.TimeKeeper{Now: func() time.Time { return now }}},
@@ -143,10 +162,10 @@ func (gaugeScenario) Build(cfg string) ([]func(), func(*vsched.Sched) []string) 
 	}
 	monitor := func(s *vsched.Sched) []string {
 		if g := c.ConcurrentCommands(); g != 0 {
-			problems = append(problems, fmt.Sprintf("ConcurrentCommands reads %d once all calls have returned", g))
+			problems = append(problems, fmt.Sprintf("C04: ConcurrentCommands reads %d once all calls have returned (by return or by panic, a collector's panic on a rejection included)", g))
 		}
 		if g := c.ConcurrentFallbacks(); g != 0 {
-			problems = append(problems, fmt.Sprintf("ConcurrentFallbacks reads %d once all calls have returned", g))
+			problems = append(problems, fmt.Sprintf("C04: ConcurrentFallbacks reads %d once all calls have returned (by return or by panic, a collector's panic on a rejection included)", g))
 		}
 		runRejected := 0
 		for i, o := range outs {
@@ -172,10 +191,10 @@ func (gaugeScenario) Build(cfg string) ([]func(), func(*vsched.Sched) []string) 
 			for i, o := range outs {
 				want := map[byte]string{'p': "run panic", 'P': "fallback panic"}[acts[i]]
 				reached := (acts[i] == 'p' && o.ran) || (acts[i] == 'P' && o.fbRan)
-				if reached && (!o.panicked || o.panicVal != want) {
+				if reached && (!o.panicked || (o.panicVal != want && o.panicVal != "collector panic on rejection")) {
 					problems = append(problems, fmt.Sprintf("C10: caller %d's function panicked with %q but the caller saw panicked=%t value=%v", i, want, o.panicked, o.panicVal))
 				}
-				if !reached && o.panicked {
+				if !reached && o.panicked && o.panicVal != "collector panic on rejection" {
 					problems = append(problems, fmt.Sprintf("C10: caller %d saw a panic (%v) although its own functions raised none", i, o.panicVal))
 				}
 			}
